@@ -28,8 +28,10 @@ CLAIMS = {
                      "owners, count, owner index, list(owner), eACL, alias and all other families; NeoFSID keys; Netmap configuration, epoch "
                      "bookkeeping, subscribers, node lists and candidates; NNS records, roots, supply and sub-domain states are preserved by the "
                      "migration (exact get-characterisation of both key-renaming loops for every storage, key-length separation lemmas); a "
-                     "non-notary contract with a ballot younger than 21 blocks refuses the upgrade. Two statements are false of the current code and "
-                     "carry kernel-checked negation witnesses (F20 Netmap empty snapshot -> Null, F21 Container 57-byte estimation key). Partial: NNS "
+                     "non-notary contract with a ballot younger than 21 blocks refuses the upgrade. Netmap node lists from before 0.16 are converted node "
+                     "for node with NO proviso: an empty list stays the empty array (F20, repaired by f42319b; its witness is replayed on every run). "
+                     "One statement is false of the current code and carries a kernel-checked negation witness (F21 Container 57-byte estimation key, "
+                     "known finding). Partial: NNS "
                      "balance/token accounting of dropped TLD owners, Alphabet GAS distribution (not modelled). Correspondence run (incl. the two "
                      "recorded dumps) + an independent monitor on the contracts' own read API.",
                 note=NOTE, technique=TECH),
